@@ -27,11 +27,11 @@ C0, C1 = 20000, 4000
 
 
 def bounds(tier):
-    return {'tier': tier, 'program_space': 'L0 full; L0c, L1(W2,K1 quick / W3,K2 thorough), L2, families under '
-                                           + ('EXPLICIT' if tier == 'quick' else 'all 5 environments'),
+    return {'tier': tier, 'program_space': 'L0 full; L0c, L1(W2,K1 quick / W2,K2 thorough), L2, families under '
+                                           + ('EXPLICIT' if tier == 'quick' else 'EXPLICIT, IMPLICIT, AUTOMATIC'),
             'codecs': list(CODECS),
             'cuts': 'all k for len<=256; else k<=64, |k-16384*i|<=4, |k-65536|<=4, k>=len-8',
-            'values_per_type_cap': 'L0 16/40, L0c 4/10, L1 4/8, L2 4/8, families 10/20 (quick/thorough)'}
+            'values_per_type_cap': 'L0 16/40, L0c 4/6, L1 4/6, L2 4/8, families 10/20 (quick/thorough)'}
 
 
 VALUES_CAP = {'quick': 12, 'thorough': 40}
@@ -48,16 +48,16 @@ def units(tier):
     environment (quick) or all environments (thorough).  The number of values per
     type is capped per layer (first and last values of the boundary domain)."""
     thorough = tier == 'thorough'
-    envs = space.ENVS_ALL if thorough else (('EXPLICIT', False),)
+    envs = (('EXPLICIT', False), ('IMPLICIT', False), ('AUTOMATIC', False)) if thorough else (('EXPLICIT', False),)
     out = []
     for u in space.l0_units(thorough):
         u.extra['vcap'] = 40 if thorough else 16
         out.append(u)
     for u in space.l0c_units(thorough, envs=envs):
-        u.extra['vcap'] = 10 if thorough else 4
+        u.extra['vcap'] = 6 if thorough else 4
         out.append(u)
-    for u in space.l1_units(3 if thorough else 2, 2 if thorough else 1, envs=envs):
-        u.extra['vcap'] = 8 if thorough else 4
+    for u in space.l1_units(2, 2 if thorough else 1, envs=envs):
+        u.extra['vcap'] = 6 if thorough else 4
         out.append(u)
     for u in space.l2_units(thorough, envs=envs):
         u.extra['vcap'] = 8 if thorough else 4
